@@ -645,6 +645,26 @@ def r01_6(ctx):
     (ctx.ok(construct, f.loc(dd[0])) if ok else ctx.bad(construct, "direct_dep is no longer the OR over the definitions' deps", f.loc()))
 
 
+def r01_7(ctx):
+    """R01.7 every `depends on` line counts: both parsers AND repeated depends-on / visible-if lines onto the node's
+    dependency (C04 R04.8) - a dropped line removes an inherited condition from prompts, defaults, ranges and selects."""
+    from . import c04
+    c04.r04_8(ctx)
+
+
+def r01_8(ctx):
+    """R01.8 a prescribed value must also be the value read after the configuration changed: every component the Symbol
+    evaluators read (direct deps for imply / set default, defaults, ranges, set values ...) is an invalidation edge
+    (Symbol part of C03 R03.1) - without the edge the option keeps the value of the previous configuration."""
+    from . import c03
+    before = len(ctx.instances)
+    c03.r03_1(ctx)
+    keep = [i for i in ctx.instances[before:] if i.construct.startswith("Symbol/")]
+    dropped = {i.construct for i in ctx.instances[before:]} - {i.construct for i in keep}
+    ctx.instances[before:] = keep
+    ctx.findings[:] = [f for f in ctx.findings if not (f.rule == ctx._rule and f.construct in dropped)]
+
+
 def rules():
     return [("R01.1", r01_1, 9), ("R01.2", r01_2, 5), ("R01.3", r01_3, 5), ("R01.4", r01_4, 12), ("R01.5", r01_5, 7),
-            ("R01.6", r01_6, 5)]
+            ("R01.6", r01_6, 5), ("R01.7", r01_7, 4), ("R01.8", r01_8, 14)]
